@@ -272,9 +272,9 @@ def run(ctx):
                                    os.path.join(ctx.work, "exh_%d.impl" % s), sample=(s == 0))
         hist_total(ctx, res, "exhaustive_full_len%d_all_shards" % L)
         # audit B27: the same alphabet and length from the state in which both producers have IDENTIFYed (from the empty
-        # registry ~99 %% of the REGISTER/UNREGISTER steps are E_INVALID "client must IDENTIFY"): a strided 1/8 sample in
+        # registry ~99 %% of the REGISTER/UNREGISTER steps are E_INVALID "client must IDENTIFY"): a strided 1/16 sample in
         # the quick tier, 1/2 (78 732 histories, rotating with the seed) in the thorough tier (which must stay within ~10 min)
-        stride = ctx.budget(8 * nsh, 2 * nsh)
+        stride = ctx.budget(16 * nsh, 2 * nsh)
         jobs = [(binp, "TestVerifE4Exhaustive", {"VERIF_LEN": L, "VERIF_SHARD": (s * (stride // nsh) + ctx.seed) % stride,
                                                   "VERIF_NSHARD": stride, "VERIF_ALPHA": "full", "VERIF_PRE": "ident"}, 900)
                 for s in range(nsh)]
